@@ -216,8 +216,8 @@ type RE2[G any] struct {
 
 func (*RLp[G]) MarshalJSON() ([]byte, error) { return czMJp, nil }
 
-// finding jsonEmbeddedStructUnderConstruction: a struct that embeds a struct type which is under construction at that
-// moment (same addressability) loses the promoted fields
+// formerly the finding jsonEmbeddedStructUnderConstruction (repaired: structType.root): a struct that embeds a struct
+// type which is under construction at that moment used to lose the promoted fields
 type RB[G any] struct {
 	X int
 	F []struct{ RB[G] }
@@ -225,6 +225,69 @@ type RB[G any] struct {
 type RN[G any] struct {
 	Y LJp[G]
 	P *struct{ RN[G] }
+}
+
+// Since the repair of jsonEmbeddedStructUnderConstruction (structType.root) RB and RN agree with encoding/json, like the
+// other shapes of a cycle through a REGULAR field below; what still differs are cycles made of EMBEDDED structs only
+// (X2/Y2, X3/Y3/Z3, X4/U4: the struct types built inside the cycle, with the cut, are kept as THE struct types of
+// their keys). The model has no ambiguity filter for promoted fields: the forms below are those in which the JSON
+// names stay unique in what segmentio builds.
+type RBp[G any] struct { // []struct{*T}
+	X int
+	F []struct{ *RBp[G] }
+}
+type RBm[G any] struct { // map value
+	X int
+	M map[string]struct{ RBm[G] }
+}
+type RM1[G any] struct { // mutual recursion
+	A int
+	F []struct{ RM2[G] }
+}
+type RM2[G any] struct {
+	B int
+	G []struct{ RM1[G] }
+}
+type RD0[G any] struct { // double embedding
+	X LJp[G]
+	F []struct{ RD1[G] }
+}
+type RD1[G any] struct{ RD0[G] }
+type RQ[G any] struct { // tags, omitempty, string on promoted fields
+	N int    `json:"n,string"`
+	O int    `json:"o,omitempty"`
+	S IJp[G] `json:",string"`
+	F []struct{ RQ[G] }
+}
+type X2[G any] struct {
+	*Y2[G]
+	A int
+	L []Y2[G]
+}
+type Y2[G any] struct {
+	*X2[G]
+	B int
+}
+type X3[G any] struct {
+	*Y3[G]
+	*Z3[G]
+}
+type Y3[G any] struct {
+	*X3[G]
+	B int
+}
+type Z3[G any] struct{ C int }
+type X4[G any] struct{ *U4[G] }
+type U4[G any] struct {
+	*X4[G]
+	B int
+	F []struct{ X4[G] }
+}
+
+// czAddrForms: a value of type T in addressable positions only
+func czAddrForms[T any](z T) []any {
+	z2 := z
+	return []any{&z, []T{z}, []*T{&z2}, map[string]*T{"s": &z2}, WP[T]{&z2}, &W[T]{z}, &[1]T{z}, []any{&z2}}
 }
 
 // ---- building the zoo ------------------------------------------------------------------------------------------------
@@ -378,6 +441,18 @@ func czZoo[G any]() []any {
 	// finding jsonEmbeddedStructUnderConstruction
 	r = append(r, czForms(czFilled[RB[G]]())...)
 	r = append(r, czForms(czFilled[RN[G]]())...)
+	// more cycles through a regular field: agree since the repair
+	r = append(r, czForms(czFilled[RBp[G]]())...)
+	r = append(r, czForms(czFilled[RBm[G]]())...)
+	r = append(r, czForms(czFilled[RM1[G]]())...)
+	r = append(r, czForms(czFilled[RM2[G]]())...)
+	r = append(r, czForms(czFilled[RD0[G]]())...)
+	r = append(r, czForms(czFilled[RD1[G]]())...)
+	r = append(r, czForms(czFilled[RQ[G]]())...)
+	// cycles of embedded structs only: still differ (known class jsonEmbeddedStructUnderConstruction)
+	r = append(r, czAddrForms(czFilled[X2[G]]())...)
+	r = append(r, czAddrForms(czFilled[X3[G]]())...)
+	r = append(r, czAddrForms(czFilled[X4[G]]())...)
 	return r
 }
 
